@@ -357,6 +357,16 @@ def run(prog, chk):
     if validator_domain(prog, r6) < 8:
         raise Broken("fewer than 8 direct normaliser calls found")
 
+    r11 = chk.rule("R11-normalised-name-not-validated-again", "an expression known to hold normaliser output is not handed to a validating "
+                   "name parameter (computed: parameters forwarded to cif_normalize_name / cif_normalize_item_name / a map's "
+                   "normalizer): normalisation can lengthen a name, so a second validation refuses valid names near the limit",
+                   primary=False, floor=20)
+    from .. import namerevalidate
+    n11, vparams = namerevalidate.rule(prog, r11, classify_key_expr, normaliser_outputs)
+    if n11 < 20:
+        raise Broken("fewer than 20 calls with a validating name parameter found")
+    chk.extra_cov["validating_name_parameters"] = sorted("%s(%s)" % k for k in vparams)
+
     r10 = chk.rule("R10-names-exclude-controls-and-blanks", "for every code unit U+0001..U+0020 and U+007F one of the character predicates "
                    "of cif_is_valid_name answers yes (evaluated over their CFGs): no code or name containing a blank, tab, line "
                    "terminator or other control character is accepted", primary=False, floor=33)
